@@ -1,8 +1,140 @@
 import JokerVerif.Drive.Common
-/-! Driver handlers for C08 C15 (to be filled in). -/
+import JokerVerif.Model.Data
+/-! Driver handlers for C08 / C15: the `Data` model executed at `Float` (doubles travel as bit patterns). -/
 open Lean Drive
+
 namespace Drive
 
-def dataOps : List (String × H) := []
+/-- numpy's sort order on doubles: `NaN` sorts last -/
+def npLe (a b : Float) : Bool := decide (a ≤ b) || b.isNaN
+
+def finF (x : Float) : Bool := x.isFinite
+
+def errName : Data.Err → String
+  | .value => "value" | .type => "type" | .notimpl => "notimpl" | .badperm => "badperm"
+
+def getFloatMat (j : Json) (k : String) : Except String (List (List Float)) := do
+  let rows ← getArr j k
+  let rs ← rows.toList.mapM (fun r => (fromJson? r : Except String (Array Nat)))
+  return rs.map (fun r => (r.toList.map floatOfBits))
+
+def jFloatMat (m : List (List Float)) : Json := Json.arr (m.map jFloats).toArray
+
+def jOptFloat : Option Float → Json
+  | none => Json.null
+  | some x => jNat (bitsOfFloat x)
+
+def getUnc (j : Json) : Except String (Data.Unc Float) :=
+  match j.getObjVal? "cov" with
+  | .ok (.arr _) => do return .cov (← getFloatMat j "cov")
+  | _ => do return .std (← getFloats j "err").toList
+
+def getTRefArg (j : Json) : Except String (Data.TRefArg Float) := do
+  let tr ← j.getObjVal? "tref"
+  let kind ← getStr tr "kind"
+  match kind with
+  | "default" => return .default
+  | "disabled" => return .disabled
+  | "notTime" => return .notTime
+  | "explicit" => return .explicit (← getFloat tr "value")
+  | other => throw s!"bad tref kind {other}"
+
+def jRV (d : Data.RV Float Float String) : Json :=
+  let base := [("t", jFloats d.t), ("rv", jFloats d.rv), ("tref", jOptFloat d.tref),
+               ("uRv", Json.str d.rvUnit), ("uErr", Json.str d.errUnit)]
+  match d.unc with
+  | .std e => Json.mkObj (base ++ [("err", jFloats e), ("ivar", jFloats (Data.ivarStd e))])
+  | .cov c => Json.mkObj (base ++ [("cov", jFloatMat c)])
+
+def getRV (j : Json) : Except String (Data.RV Float Float String) := do
+  let t ← getFloats j "t"; let rv ← getFloats j "rv"
+  let unc ← getUnc j
+  let tref ← match j.getObjVal? "tref" with
+    | .ok .null => pure none
+    | .ok v => (fromJson? v : Except String Nat).map (fun b => some (floatOfBits b))
+    | .error _ => pure none
+  let uRv ← getStr j "uRv"; let uErr ← getStr j "uErr"
+  return { t := t.toList, rv := rv.toList, unc := unc, tref := tref, rvUnit := uRv, errUnit := uErr }
+
+def jResult (r : Except Data.Err (Data.RV Float Float String)) : Json :=
+  match r with
+  | .error e => Json.mkObj [("error", Json.str (errName e))]
+  | .ok d => Json.mkObj [("ok", jRV d)]
+
+/-- `RVData(t, rv, rv_err, t_ref, clean)` with the observed sorting permutation -/
+def rvdataOp : H := fun j => do
+  let t ← getFloats j "t"; let rv ← getFloats j "rv"
+  let unc ← getUnc j
+  let clean ← getBool j "clean"
+  let tref ← getTRefArg j
+  let perm ← getNats j "perm"
+  let uRv ← getStr j "uRv"; let uErr ← getStr j "uErr"
+  let keep := Data.keepMask finF finF clean t.toList rv.toList unc
+  let r := Data.init finF finF npLe t.toList rv.toList unc uRv uErr clean tref perm.toList
+  let shape := Data.shapeOk t.toList rv.toList unc
+  let base := match jResult r with
+    | Json.obj kvs => kvs.toList.map (fun (k, v) => (k, v))
+    | _ => []
+  return Json.mkObj (base ++ [("keep", Json.arr (keep.map (fun b => Json.bool b)).toArray), ("shapeOk", Json.bool shape),
+                              ("selection", jNats (Data.selection keep perm.toList))])
+
+def copyOp : H := fun j => do
+  let d ← getRV (← j.getObjVal? "data")
+  let perm ← getNats j "perm"
+  return jResult (Data.copy finF finF npLe d perm.toList)
+
+def getitemOp : H := fun j => do
+  let d ← getRV (← j.getObjVal? "data")
+  let sel ← getNats j "sel"
+  let perm ← getNats j "perm"
+  return jResult (Data.getitem finF finF npLe d sel.toList perm.toList)
+
+def getSurvey (j : Json) : Except String (Data.Survey Float Float) := do
+  let t ← getFloats j "t"; let rv ← getFloats j "rv"; let err ← getFloats j "err"
+  let hc ← match j.getObjVal? "hasCov" with
+    | .ok (.bool b) => pure b
+    | _ => pure false
+  return { t := t.toList, rv := rv.toList, err := err.toList, hasCov := hc }
+
+def jMerged {κ : Type} [LT κ] [DecidableLT κ] [DecidableEq κ] (jk : κ → Json) (p : Nat)
+    (r : Except Data.Err (Data.Merged κ Float Float)) : Json :=
+  match r with
+  | .error e => Json.mkObj [("error", Json.str (errName e))]
+  | .ok m => Json.mkObj [("ok", Json.mkObj [("t", jFloats m.t), ("rv", jFloats m.rv), ("err", jFloats m.err),
+      ("ids", Json.arr (m.ids.map jk).toArray), ("uniq", Json.arr ((Data.uniq m.ids).map jk).toArray),
+      ("tref", jNat (bitsOfFloat m.tref)), ("design", jFloatMat (m.design p))])]
+
+/-- `validate_prepare_data([..] | {..}, poly_trend, n_offsets)`; keys all integers or all strings -/
+def mergeOp : H := fun j => do
+  let svs ← getArr j "surveys"
+  let nOff ← getNat j "nOffsets"
+  let p ← getNat j "p"
+  let perm ← getNats j "perm"
+  let keyKind ← getStr j "keyKind"
+  if keyKind == "int" then
+    let l ← svs.toList.mapM (fun s => do
+      let k ← getInt s "key"
+      let sv ← getSurvey s
+      return (k, sv))
+    return jMerged (κ := Int) jInt p (Data.merge npLe l nOff perm.toList)
+  else
+    let l ← svs.toList.mapM (fun s => do
+      let k ← getStr s "key"
+      let sv ← getSurvey s
+      return (k, sv))
+    return jMerged (κ := String) Json.str p (Data.merge npLe l nOff perm.toList)
+
+/-- `validate_prepare_data(single RVData, poly_trend, n_offsets)` -/
+def singleOp : H := fun j => do
+  let d ← getRV (← j.getObjVal? "data")
+  let p ← getNat j "p"
+  let nOff ← getNat j "nOffsets"
+  match Data.singleDesign d p nOff with
+  | .error e => return Json.mkObj [("error", Json.str (errName e))]
+  | .ok m => return Json.mkObj [("ok", Json.mkObj [("design", jFloatMat m)])]
+
+def dataOps : List (String × H) :=
+  [("data.rvdata", rvdataOp), ("data.copy", copyOp), ("data.getitem", getitemOp), ("data.merge", mergeOp),
+   ("data.single", singleOp)]
 
 end Drive
